@@ -47,7 +47,7 @@ def rule_run_protocol(ctx):
 
 def rule_class_resolution(ctx):
     model = ctx.model
-    ctx.res.minimum("O20.2", 3)
+    ctx.res.minimum("O20.2", 4)
 
     # (a) the maps are built from __subclasses__() of the two abstract bases, keyed by the plain class name
     def map_cell(ch):
@@ -107,23 +107,47 @@ def rule_class_resolution(ctx):
 
     decide(ctx, "O20.2", "class look-up (last dotted part + suffix)", CID + "._create_class", lookup_cell, min_cells=5)
 
-    # (c) Cid.__init__ builds both maps from the two abstract bases
-    import ast
+    # (c) Cid.__init__ builds both maps from the two abstract bases (interpreted: which base reaches which attribute)
+    from ..absint import stub
 
-    from ..model import walk_own
-
-    init = model.func(CID + ".__init__")
     built = {}
-    for node in walk_own(init.node):
-        if isinstance(node, ast.Assign) and isinstance(node.value, ast.Call) and ast.unparse(node.value.func).endswith("_create_name_to_class_map"):
-            for target in node.targets:
-                built[ast.unparse(target)] = ast.unparse(node.value.args[0]) if node.value.args else None
-    expected = {"self._check_name_to_class_map": "checks.AbstractCheck", "self._field_format_name_to_class_map": "fields.AbstractFieldFormat"}
-    if built == expected:
+
+    @stub
+    def map_stub(interp_, args, kwargs):
+        base = args[0]
+        marker = "map of " + (base.info.qualname if isinstance(base, ClassRef) else repr(base))
+        built[marker] = True
+        return {"marker": marker}
+
+    interp = Interp(model, Chooser(), stubs={CID + "._create_name_to_class_map": map_stub},
+                    externals={"traceback.extract_stack": lambda i, a, k: [("caller.py", 1, "f", "x")], "os.path.basename": lambda i, a, k: "x"})
+    cid = interp.instantiate(ClassRef(model.cls(CID)), [], {})
+    check_map = cid.attrs.get("_check_name_to_class_map")
+    field_map = cid.attrs.get("_field_format_name_to_class_map")
+    ok = isinstance(check_map, dict) and check_map.get("marker") == "map of cutplace.checks.AbstractCheck" \
+        and isinstance(field_map, dict) and field_map.get("marker") == "map of cutplace.fields.AbstractFieldFormat"
+    if ok:
         ctx.res.ok("O20.2", "Cid.__init__ builds the check and field-format maps from the two abstract bases", True)
     else:
         ctx.res.fail("O20.2", "maps built at construction", "interface.Cid.__init__:O20.2:maps", where_of(model, CID + ".__init__"),
-                     "class maps built in Cid.__init__: %r, expected %r" % (built, expected))
+                     "class maps after Cid(): checks %r, field formats %r" % (check_map, field_map))
+    # (d) the maps are what add_field_format_row / add_check_row look classes up in
+    lookups = {}
+
+    @stub
+    def create_class_stub(interp_, args, kwargs):
+        lookups[args[4]] = args[1]
+        return "CLASS"
+
+    interp = Interp(model, Chooser(), stubs={CID + "._create_class": create_class_stub})
+    cid = Obj(model.cls(CID), {"_field_format_name_to_class_map": {"marker": "fields"}, "_check_name_to_class_map": {"marker": "checks"}})
+    interp.call_function(model.func(CID + "._create_field_format_class"), [cid, "Text"], {}, None)
+    interp.call_function(model.func(CID + "._create_check_class"), [cid, "IsUnique"], {}, None)
+    if lookups.get("field", {}).get("marker") == "fields" and lookups.get("check", {}).get("marker") == "checks":
+        ctx.res.ok("O20.2", "field types are looked up in the field-format map, check types in the check map", True)
+    else:
+        ctx.res.fail("O20.2", "look-up uses the matching map", "interface.Cid._create_field_format_class:O20.2:map", where_of(model, CID + "._create_class"),
+                     "class look-ups use %r" % (lookups,))
 
 
 RULES = [rule_hook_protocol, rule_row_protocol, rule_run_protocol, rule_class_resolution]
